@@ -38,7 +38,8 @@ impl<'a> Iterator for MessageReceiver<'a> {
                 RtpsSubmessageReadKind::InfoDestination(m) => {
                     self.dest_guid_prefix = m.guid_prefix();
                 }
-                RtpsSubmessageReadKind::InfoReply(_) => todo!(),
+                // the reply locators are not used by this implementation: ignore the submessage
+                RtpsSubmessageReadKind::InfoReply(_) => (),
                 RtpsSubmessageReadKind::InfoSource(m) => {
                     self.source_vendor_id = m.vendor_id();
                     self.source_version = m.protocol_version();
